@@ -161,13 +161,20 @@ def gen_case(rng: random.Random, tier: str, bias: str = ''):
     max_len = rng.choice([4, 8, 12]) if not big else rng.choice([12, 30, 60])
     # two independent manager servers A and B in half of the cases: objects are created on either, and a proxy
     # of an object hosted by one server may be stored in a container hosted by the other
-    two = bias == 'two' or (bias not in ('one', 'authkey') and rng.random() < 0.5)
+    two = bias in ('two', 'mixed') or (bias not in ('one', 'authkey') and rng.random() < 0.5)
     servers = ['A', 'B'] if two else ['A']
+    # mixed keys: of two managers exactly ONE (A) has an explicit authkey.  Proxies cross in the supported direction
+    # only — objects of the default-key manager B inside / as arguments of objects of A — never a proxy of an A-object
+    # into B (B's process does not know A's key: stdlib design)
+    mixed = bias == 'mixed' or (two and bias != 'two' and rng.random() < 0.35)
+
+    def ok_pair(c, i):
+        return not (mixed and T.home[c] == 'B' and T.home[i] == 'A')
     # a manager with an explicit authkey that differs from the processes' own key (single manager only: a process
     # needs a server's key to talk to it, and pickles of proxies carry it only while a child is being spawned — so
     # these histories pass proxies to spawned/forked children, nest them and take them out again, but do not send
     # pickles through pipes or queues)
-    akey = bias == 'authkey' or (not two and bias != 'one' and rng.random() < 0.25)
+    akey = bias == 'authkey' or mixed or (not two and bias != 'one' and rng.random() < 0.25)
 
     batch = []          # [None] = off; a list = collecting sub-operations of a concurrent step
 
@@ -362,9 +369,14 @@ def gen_case(rng: random.Random, tier: str, bias: str = ''):
         x = pick_handle(p)
         if two and rng.random() < 0.6:
             # prefer a proxy of an object hosted by the *other* server
-            other = [(pp, h, i) for pp, h, i in T.live_handles() if pp == p and T.home[i] != T.home[c]]
+            other = [(pp, h, i) for pp, h, i in T.live_handles() if pp == p and T.home[i] != T.home[c] and ok_pair(c, i)]
             if other:
                 x = rng.choice(other)
+        if not ok_pair(c, x[2]):
+            oks = [(pp, h, i) for pp, h, i in T.live_handles() if pp == p and ok_pair(c, i)]
+            if not oks:
+                return False
+            x = rng.choice(oks)
         _, hx, i = x
         return do_store(p, hc, c, hx, i)
 
@@ -373,7 +385,7 @@ def gen_case(rng: random.Random, tier: str, bias: str = ''):
         if not two:
             return False
         cands = [(p, hc, c, hx, i) for p, hc, c in T.live_handles() if T.kind[c] in CONT and c not in T.inner_of
-                 for pp, hx, i in T.live_handles() if pp == p and T.home[i] != T.home[c]]
+                 for pp, hx, i in T.live_handles() if pp == p and T.home[i] != T.home[c] and ok_pair(c, i)]
         if not cands:
             return op_create()
         return do_store(*rng.choice(cands))
@@ -529,7 +541,10 @@ def gen_case(rng: random.Random, tier: str, bias: str = ''):
         if not cands:
             return False
         p, hc, c = rng.choice(cands)
-        _, hx, i = pick_handle(p)
+        oks = [(pp, h, i) for pp, h, i in T.live_handles() if pp == p and ok_pair(c, i)]
+        if not oks:
+            return False
+        _, hx, i = rng.choice(oks)
         method, args = rng.choice([('count', [{'$h': hx}]), ('index', [{'$h': hx}]), ('remove', [{'$h': hx}]),
                                    ('insert', ['x', {'$h': hx}])])
         st_n = len(steps)
@@ -567,7 +582,9 @@ def gen_case(rng: random.Random, tier: str, bias: str = ''):
         p, hc, c = rng.choice(cands)
         # distinct proxy objects: pickling one list that holds the *same* proxy object twice memoises
         # it (one `__reduce__`, one proxy after un-pickling, referenced twice) — one reference, not two
-        mine = [(p, h, i) for pp, h, i in T.live_handles() if pp == p]
+        mine = [(p, h, i) for pp, h, i in T.live_handles() if pp == p and ok_pair(c, i)]
+        if not mine:
+            return False
         xs = rng.sample(mine, k=min(len(mine), rng.choice([1, 2, 3])))
         macros = []
         for _, hx, i in xs:
@@ -686,7 +703,7 @@ def gen_case(rng: random.Random, tier: str, bias: str = ''):
             i = T.handles['0'].pop(h)
             emit('delete', '0', ['delete', h], [f'delete 0 {i}'], probe=False)
     return dict(kind='refcount', proc_cls=proc_cls, steps=steps, winddown=winddown, n_ops=n, two_servers=two,
-                authkey='abc' if akey else None,
+                authkey='abc' if akey else None, mixed_keys=mixed,
                 home={str(i): srv for i, srv in T.home.items()},
                 kindclass={str(i): KINDS[k][1] for i, k in T.kind.items()},
                 n_clients=T.n_client, n_idents=T.n_ident, settle=3.0 if not big else 6.0,
@@ -714,7 +731,10 @@ def _shape(case):
         fork_mem=any(st['op'] == 'fork' and any(case['kindclass'].get(m.split()[3]) == 'mem' for m in st['macros'])
                      for st in case['steps']) and case['winddown'],
         # explicit authkey: nested proxy read back / taken out again
-        authkey_nested=bool(case.get('authkey')) and _then(case, lambda st: st['op'] in ('store', 'extend'),
+        # two managers, only A with an explicit key: a B-object's proxy inside an A-container, taken out / given back
+        mixed_b_in_a=bool(case.get('mixed_keys')) and any(st.get('cross') == ['B', 'A'] for st in case['steps'])
+        and case['winddown'],
+        authkey_nested=bool(case.get('authkey')) and not case.get('mixed_keys') and _then(case, lambda st: st['op'] in ('store', 'extend'),
                                                           lambda st: st['op'] in ('get', 'pop', 'readall')),
         # two manager servers: a proxy of an A-object inside a B-container (and the other way round), later taken
         # out / dropped with its container / given back at wind-down
